@@ -155,7 +155,14 @@ func randRunes(r *rand.Rand, alpha []rune, maxLen int) string {
 
 var labelPool = []string{"a", "b", "example", "EXAMPLE", "Mail", "x-y", "foo_1", "com", "COM", "org", "Net", "sub", "s1", "deny", "allow"}
 
+// address-literal domains: legal in RCPT / MAIL and therefore in the lists ("[IPv6:…]" carries a case-sensitive tag in the address and is
+// lower-cased with the rest of the entry by config.Process)
+var literalPool = []string{"[IPv6:2001:db8::1]", "[IPv6:ABCD::EF01]", "[IPv6:abcd::ef01]", "[1.2.3.4]", "[IPv6:::ffff:10.0.0.7]", "[192.168.0.1]"}
+
 func randDomain(r *rand.Rand) string {
+	if r.Intn(12) == 0 {
+		return literalPool[r.Intn(len(literalPool))]
+	}
 	n := 1 + r.Intn(3)
 	ls := make([]string, n)
 	for i := range ls {
